@@ -449,6 +449,14 @@ impl Vector{D} {
     pub fn dot<T: VecLike{D}>(&self, o: &T) -> (r: f64) ensures rv(r) == v_dot(*self, o.vec()) { unimplemented!() }
     #[verifier::external_body]
     pub fn zeros() -> (r: Vector{D}) ensures r == v_zero() { unimplemented!() }
+    // robustness stand-ins (nalgebra): |v|^2 = v.v -- so that a rewrite of a length through squared norms stays inside the
+    // verifier's subset and is judged against the contract instead of being undecided
+    #[verifier::external_body]
+    pub fn norm_squared(&self) -> (r: f64) ensures rv(r) == v_dot(*self, *self) { unimplemented!() }
+    #[verifier::external_body]
+    pub fn magnitude_squared(&self) -> (r: f64) ensures rv(r) == v_dot(*self, *self) { unimplemented!() }
+    #[verifier::external_body]
+    pub fn magnitude(&self) -> (r: f64) ensures rv(r) == v_norm(*self) { unimplemented!() }
 }
 impl UnitVec{D} {
     #[verifier::external_body]
